@@ -103,7 +103,10 @@ def main():
         meta["checks"] = {}
         for c in checks:
             t0 = time.time()
-            rc, out = sh(f"{PY} harness/check.py {c} --tier quick", cwd=VERIF, env={"VERIF_REPO": wt}, timeout=1500)
+            scratch = f"/tmp/seedev-{pid}-{mn}"
+            os.makedirs(scratch, exist_ok=True)
+            rc, out = sh(f"{PY} harness/check.py {c} --tier quick", cwd=VERIF,
+                         env={"VERIF_REPO": wt, "VERIF_EVIDENCE_DIR": scratch + "/evidence", "VERIF_REPLAYS_DIR": scratch + "/replays"}, timeout=1500)
             lines = [l for l in out.splitlines() if l.startswith(("VIOLATION", "KNOWN-FINDING", c + " "))]
             kind = "missed"
             if rc == 1:
@@ -111,6 +114,14 @@ def main():
                     not any(l.startswith("VIOLATION") and "no-failing-input-found" not in l for l in lines) else "caught-with-replay"
             elif rc not in (0, 1):
                 kind = f"infra-error-{rc}"
+            # keep the first replay as part of the record
+            try:
+                reps = sorted(os.listdir(scratch + "/replays"))
+                if reps:
+                    shutil.copy(f"{scratch}/replays/{reps[0]}", f"{dst}/replay-{c}.json")
+            except OSError:
+                pass
+            shutil.rmtree(scratch, ignore_errors=True)
             meta["checks"][c] = {"exit": rc, "verdict": kind, "lines": [l[:300] for l in lines][-4:], "wall_s": round(time.time() - t0, 1)}
             if rc not in (0, 1):
                 meta["checks"][c]["tail"] = out[-800:]
